@@ -72,7 +72,7 @@ def c20_a(ctx: Ctx):
                         gate2 |= set(cfg2.node_ids_for(ctx.stmt_of(g, c)))
                     tg, ext = ctx.calls.resolve_call(g, c)
                     eff, _ = ctx.effects.transitive(tg) if tg else ([], None)
-                    if any(e.kind in common.MUTATING_KINDS for e in eff) or (isinstance(c.func, ast.Attribute) and c.func.attr == "write" and canon(c.func.value) == "config"):
+                    if any(e.kind in common.MUTATING_KINDS for e in eff) or (isinstance(c.func, ast.Attribute) and c.func.attr == "write" and ctx.calls.type_of(c.func.value, g) == "ext:ConfigObj"):
                         writes.append(c)
         if not gate2:
             out.append(ctx.viol(R, g, h, "init_project creates a new configuration without checking for a legacy (older schema) project in the directory"))
@@ -111,8 +111,16 @@ def c20_b(ctx: Ctx):
                             witness=cfg.describe_path(bad[0])))
     else:
         out.append(ctx.ok(R, f, f.node, f"all {len(paths)} normal return path(s) exclude both an older and a newer configured version"))
-    sv = env.get("schema_version")
-    cv = env.get("config_schema_version")
+    # roles by definition, not by name: the two operands of the version comparisons
+    sv = cv = None
+    for n in body_nodes(f):
+        if isinstance(n, ast.Compare) and len(n.ops) == 1 and isinstance(n.ops[0], (ast.Gt, ast.Lt, ast.GtE, ast.LtE, ast.Eq, ast.NotEq)):
+            for side in (n.left, n.comparators[0]):
+                v = common.inline_at(ctx, f, side, n)
+                if canon(v) == "SCHEMA_VERSION":
+                    sv = v
+                elif "config" in canon(v):
+                    cv = v
     if sv is not None and canon(sv) == "SCHEMA_VERSION" and ctx.fold(sv, f) is not UNKNOWN:
         out.append(ctx.ok(R, f, f.node, f"compared against SCHEMA_VERSION = {ctx.fold(sv, f)}", construct=CSC + "|reference"))
     else:
@@ -215,6 +223,12 @@ def c20_d(ctx: Ctx):
     f = ctx.fn(MIG + ":apply_migrations")
     bumps = [n for n in body_nodes(f) if isinstance(n, ast.Assign) and any(isinstance(t, ast.Subscript) and ctx.fold(t.slice, f) == "schema_version" for t in n.targets)]
     pm = ctx.parents(f)
+    # roles from the loop over the collected migrations: for (origin, destination), migrate in _collect_migrations(...)
+    MIGRATE, DEST = "migrate", "destination"
+    for lp, _b in common.loop_over(f, "_collect_migrations(X)"):
+        t = lp.target
+        if isinstance(t, ast.Tuple) and len(t.elts) == 2 and isinstance(t.elts[0], ast.Tuple) and len(t.elts[0].elts) == 2 and isinstance(t.elts[1], ast.Name):
+            MIGRATE, DEST = t.elts[1].id, canon(t.elts[0].elts[1])
     if not bumps:
         out.append(ctx.viol(R, f, f.node, "apply_migrations never records the new schema version"))
     for b in bumps:
@@ -223,9 +237,9 @@ def c20_d(ctx: Ctx):
         prev = b
         while cur is not None:
             if isinstance(cur, ast.Try) and any(prev is x for x in cur.orelse):
-                has_mig = any(isinstance(c, ast.Call) and isinstance(c.func, ast.Name) and c.func.id == "migrate" for st in cur.body for c in ast.walk(st))
+                has_mig = any(isinstance(c, ast.Call) and isinstance(c.func, ast.Name) and c.func.id == MIGRATE for st in cur.body for c in ast.walk(st))
                 in_else = in_else or has_mig
-            if isinstance(cur, ast.With) and "lock" in canon(cur.items[0].context_expr):
+            if isinstance(cur, ast.With) and ("lock" in canon(cur.items[0].context_expr).lower() or "Lock" in canon(common.inline_at(ctx, f, cur.items[0].context_expr, cur))):
                 in_with = True
             prev = cur
             cur = pm.get(id(cur))
@@ -235,9 +249,10 @@ def c20_d(ctx: Ctx):
             out.append(ctx.viol(R, f, b, "the schema version is bumped although the migration step may have failed (not in the `else` of the try around migrate())"))
         else:
             out.append(ctx.viol(R, f, b, "the schema version is bumped outside the migration lock"))
-        if canon(b.value) != "destination":
+        if canon(b.value) != DEST:
             out.append(ctx.viol(R, f, b, f"the recorded version is {canon(b.value)}, not the destination of the step"))
-    wr = [c for c in body_nodes(f) if isinstance(c, ast.Call) and isinstance(c.func, ast.Attribute) and c.func.attr == "write" and canon(c.func.value) == "config"]
+    cfgnames = {canon(t.value) for b in bumps for t in b.targets if isinstance(t, ast.Subscript)}
+    wr = [c for c in body_nodes(f) if isinstance(c, ast.Call) and isinstance(c.func, ast.Attribute) and c.func.attr == "write" and canon(c.func.value) in cfgnames]
     if wr:
         out.append(ctx.ok(R, f, wr[0], "the bumped configuration is written"))
     else:
@@ -288,7 +303,8 @@ def c20_f(ctx: Ctx):
     cache = ctx.fold(ast.parse("Project.FN_CACHE", mode="eval").body, None, ctx.prog.mod(MIG + ".v1_to_v2"))
     cfgfn = ctx.fold(ast.Name(id="PROJECT_CONFIG_FN", ctx=ast.Load()), None, ctx.prog.mod("signac._config"))
     # cache target
-    ftm = [n for n in body_nodes(f) if isinstance(n, ast.Assign) and any(isinstance(t, ast.Name) and t.id == "files_to_move" for t in n.targets)]
+    ftm = [n for n in body_nodes(f) if isinstance(n, ast.Assign) and isinstance(n.value, ast.Dict)
+           and any(isinstance(k, ast.Constant) and k.value == ".signac_sp_cache.json.gz" for k in n.value.keys)]
     if ftm and isinstance(ftm[0].value, ast.Dict):
         v = ctx.fold(ftm[0].value, f)
         if isinstance(v, dict):
@@ -300,8 +316,10 @@ def c20_f(ctx: Ctx):
         else:
             out.append(ctx.inc(R, f, ftm[0], "files_to_move does not fold"))
     # config target: _get_project_config_fn(root)
-    v2 = [n for n in body_nodes(f) if isinstance(n, ast.Assign) and any(isinstance(t, ast.Name) and t.id == "v2_fn" for t in n.targets)]
-    if v2 and isinstance(v2[0].value, ast.Call) and "signac._config:_get_project_config_fn" in common.targets_of(ctx, f, v2[0].value):
+    v2 = [n for n in body_nodes(f) if isinstance(n, ast.Assign) and len(n.targets) == 1 and isinstance(n.targets[0], ast.Name) and isinstance(n.value, ast.Call)
+          and "signac._config:_get_project_config_fn" in common.targets_of(ctx, f, n.value)]
+    moved_to = {canon(c.args[1]) for c in body_nodes(f) if isinstance(c, ast.Call) and common.ext_name(ctx, f, c) in ("os.replace", "os.rename", "shutil.move") and len(c.args) >= 2}
+    if v2 and v2[0].targets[0].id in moved_to:
         out.append(ctx.ok(R, f, v2[0], f"the config file is moved to the path the project loader uses (_get_project_config_fn -> {cfgfn})"))
     else:
         out.append(ctx.inc(R, f, f.node, "target of the config move not recognised"))
@@ -326,8 +344,33 @@ def c20_f(ctx: Ctx):
                 out.append(ctx.inc(R, lf, c, f"ConfigObj called with extra options {extra}", construct=k))
             else:
                 out.append(ctx.ok(R, lf, c, "the legacy config is parsed with ConfigObj's default value handling", construct=k))
+    for mq in (MIG + ".v0_to_v1", MIG + ".v1_to_v2", "signac._config"):
+        mm = ctx.prog.mod(mq)
+        spec = ctx.fold(mm.consts.get("_CFG"), None, mm) if "_CFG" in mm.consts else None
+        k = mq + "|_CFG"
+        if isinstance(spec, str):
+            line = [l.strip() for l in spec.splitlines() if l.strip().startswith("schema_version")]
+            if line and line[0].replace(" ", "").startswith("schema_version=string("):
+                out.append(ctx.ok(R, None, None, f"{mq}: the config spec accepts any schema_version string ({line[0]})", construct=k))
+            elif line:
+                out.append(ctx.viol(R, None, None, f"{mm.rel}: the config spec restricts schema_version to {line[0]}: a configuration declaring another version fails validation, the loader's "
+                                    "RuntimeError is read as 'no legacy project here' and the incompatible project is reported as missing instead of refused", construct=k))
+    wdc = [n for n in body_nodes(f) if isinstance(n, ast.Compare) and len(n.ops) == 1 and ctx.fold(n.comparators[0], f) == "workspace"]
+    for c in wdc:
+        l = common.inline_at(ctx, f, c.left, c)
+        t = canon(l)
+        if any(x in t for x in ("basename", "normpath", "split(", "Path(")):
+            out.append(ctx.viol(R, f, c, f"the configured workspace_dir is compared with 'workspace' after reducing it to {t[:50]}: a nested custom workspace whose last component is 'workspace' "
+                                "(e.g. data/workspace) is taken for the default, never moved, and the migrated project opens with no jobs", construct=f.qual + "|workspace-compare"))
+        elif "workspace_dir" in t or "current_workspace_name" in t:
+            out.append(ctx.ok(R, f, c, "the configured workspace_dir is compared as written with the default name", construct=f.qual + "|workspace-compare"))
     # workspace name
-    nw = [n for n in body_nodes(f) if isinstance(n, ast.Assign) and any(isinstance(t, ast.Name) and t.id == "new_workspace" for t in n.targets)]
+    # the new workspace path: destination of the move that happens when the configured name differs from the default
+    nw = []
+    for c in body_nodes(f):
+        if isinstance(c, ast.Call) and common.ext_name(ctx, f, c) in ("os.replace", "os.rename", "shutil.move") and len(c.args) >= 2 and isinstance(c.args[1], ast.Name):
+            if any("workspace" in t for (t, _) in common.facts_at(ctx, f, c, "n")):
+                nw += [n for n in body_nodes(f) if isinstance(n, ast.Assign) and any(isinstance(t, ast.Name) and t.id == c.args[1].id for t in n.targets)]
     pi = ctx.fn(PI)
     ws = [n for n in body_nodes(pi) if isinstance(n, ast.Assign) and any(canon(t) == "self._workspace" for t in n.targets)]
     if nw and ws:
@@ -340,7 +383,8 @@ def c20_f(ctx: Ctx):
     else:
         out.append(ctx.inc(R, f, f.node, "workspace names not found"))
     # project name goes to the project document under the documented key, only when non-default
-    doc = [n for n in body_nodes(f) if isinstance(n, ast.Assign) and any(isinstance(t, ast.Subscript) and canon(t.value) == "doc" for t in n.targets)]
+    doc = [n for n in body_nodes(f) if isinstance(n, ast.Assign) and any(isinstance(t, ast.Subscript) and isinstance(t.value, ast.Name)
+           and ctx.calls.type_of(t.value, f) not in (None, "ext:ConfigObj") or (isinstance(t, ast.Subscript) and ctx.fold(t.slice, f) == "signac_project_name") for t in n.targets)]
     for d in doc:
         facts = common.facts_at(ctx, f, d, "n")
         if any((not pol) and "'None'" in t for (t, pol) in facts):
@@ -350,4 +394,14 @@ def c20_f(ctx: Ctx):
     return out
 
 
-RULES = [c20_a, c20_b, c20_c, c20_d, c20_e, c20_f]
+@rule("C20-g")
+def c20_g(ctx: Ctx):
+    """init_project writes nothing outside its 'no project here' handler, i.e. nothing before the legacy-schema check (same obligation as C19-a)."""
+    from .c19 import c19_a
+    res = c19_a(ctx)
+    for r in res:
+        r.rule = "C20-g"
+    return res
+
+
+RULES = [c20_a, c20_b, c20_c, c20_d, c20_e, c20_f, c20_g]
